@@ -1858,7 +1858,7 @@ impl Prop for C17 {
         run(c, o)
     }
     fn rule() -> &'static str {
-        "proptest + enumeration: tonic_web::GrpcWebClientService over a scripted inner tower service whose response body is built by the harness' own grpc-web encoder: 0-5 message frames (flag 0, 10% flag 1; payload 0, 1-16, <=300, 8-9 KiB) + one trailers frame (flag 0x80) whose block lists grpc-status 0..16 (or none), percent-encoded Unicode grpc-message, 0-5 entries from a small name pool (so names repeat; mixed-case variants; -bin values as padded/unpadded base64; values with ':' / inner spaces / empty / obs-text), with or without one space after the colon, status first or last; or no trailers frame. Families: 45% complete bodies, 30% truncated at a byte offset (uniform / near frame starts / near the end), 20% mutated (flag byte, declared length +-delta / absolute, trailers frame not last, bytes appended after the trailers, trailer line without colon / invalid name byte / invalid value byte / no final CRLF / empty line, xor of a byte), 5% raw bytes. Chunking (stratified): one chunk; one chunk + cut inside the trailers header / payload; per frame; per frame + cut inside a frame header / the trailers header / the trailers payload; per frame with the trailers glued to the last message; messages | trailers; byte at a time; random sizes (0,1,2-5,<=100,<=9000) + targeted cuts; empty chunks inserted; Pending pattern; 4% inner body error before some chunk. Every DATA chunk is handed over as a two-segment Buf (bytes::buf::Chain) split at a generated position (40%: first segment empty); the response content-type is application/grpc-web[+proto] or (25%) another spelling (+json, +thrift, parameters, mixed case). Modes: body polled directly (60%), the same exchange through a generated client as a server-streaming (30%) or unary (10%) call. Oracle (reference parse of the delivered bytes, written here): totality (no panic, poll budget, scripted body polled <= 8 times after its end, trip-wire at 1000 = busy loop), DATA so far always a prefix of the message bytes and never more than received, no None before the inner body ended unless a complete trailers frame arrived, None sticky; well-formed body: DATA == message frames' bytes exactly, then exactly one trailers frame whose map equals the expected ordered multimap (names lower-cased, full values, all repeats, nothing extra), then None, no Err; cut inside a frame header / message payload / trailers payload: an Err before any None and no trailers surfaced; bad flag bits: Err or the bytes handed on; trailer line without colon / invalid name / invalid value byte: Err; inner body error: Err. Caller's view: messages equal the payloads in order, then None + trailing metadata (status 0) or Err(code, percent-decoded message); a cut-off body never yields a successful call. Request side: the inner service sees exactly one content-type application/grpc-web[+proto], same method/URI/metadata and unchanged body bytes. Non-trivial: >=1 message and a chunk boundary strictly inside a frame header or inside the trailers frame, or a truncation; distinct = distinct serialised case. Trailer values may end in blanks. No-hold-back clause for well-formed bodies: when the bytes received so far are exactly whole message frames, they have been handed out before the inner body is polled again."
+        "proptest + enumeration: tonic_web::GrpcWebClientService over a scripted inner tower service whose response body is built by the harness' own grpc-web encoder: 0-5 message frames (flag 0, 10% flag 1; payload 0, 1-16, <=300, 8-9 KiB) + one trailers frame (flag 0x80) whose block lists grpc-status 0..16 (or none), percent-encoded Unicode grpc-message, 0-5 entries from a small name pool (so names repeat; mixed-case variants; -bin values as padded/unpadded base64; values with ':' / inner spaces / empty / obs-text), with or without one space after the colon, status first or last; or no trailers frame. Families: 45% complete bodies, 30% truncated at a byte offset (uniform / near frame starts / near the end), 20% mutated (flag byte, declared length +-delta / absolute, trailers frame not last, bytes appended after the trailers, trailer line without colon / invalid name byte / invalid value byte / no final CRLF / empty line, xor of a byte), 5% raw bytes. Chunking (stratified): one chunk; one chunk + cut inside the trailers header / payload; per frame; per frame + cut inside a frame header / the trailers header / the trailers payload; per frame with the trailers glued to the last message; messages | trailers; byte at a time; random sizes (0,1,2-5,<=100,<=9000) + targeted cuts; empty chunks inserted; Pending pattern; 4% inner body error before some chunk. Every DATA chunk is handed over as a two-segment Buf (bytes::buf::Chain) split at a generated position (40%: first segment empty); the response content-type is application/grpc-web[+proto] or (25%) another spelling (+json, +thrift, parameters, mixed case). Modes: body polled directly (60%), the same exchange through a generated client as a server-streaming (30%) or unary (10%) call. Oracle (reference parse of the delivered bytes, written here): totality (no panic, poll budget, scripted body polled <= 8 times after its end, trip-wire at 1000 = busy loop), DATA so far always a prefix of the message bytes and never more than received, no None before the inner body ended unless a complete trailers frame arrived, None sticky; well-formed body: DATA == message frames' bytes exactly, then exactly one trailers frame whose map equals the expected ordered multimap (names lower-cased, full values, all repeats, nothing extra), then None, no Err; cut inside a frame header / message payload / trailers payload: an Err before any None and no trailers surfaced; bad flag bits: Err or the bytes handed on; trailer line without colon / invalid name / invalid value byte: Err; inner body error: Err. Caller's view: messages equal the payloads in order, then None + trailing metadata (status 0) or Err(code, percent-decoded message); a cut-off body never yields a successful call. Request side: the inner service sees exactly one content-type application/grpc-web[+proto], same method/URI/metadata and unchanged body bytes. Non-trivial: >=1 message and a chunk boundary strictly inside a frame header or inside the trailers frame, or a truncation; distinct = distinct serialised case. Trailer values may end in blanks. No-hold-back clause for well-formed bodies: when the bytes received so far are exactly whole message frames, they have been handed out before the inner body is polled again. Half of the inner bodies report is_end_stream exactly."
     }
     fn assumptions() -> Vec<String> {
         vec![
